@@ -120,10 +120,13 @@ class SimDisk:
         self.read_sizes = []
         self.raw_writes = []
         self.open_handles = 0
+        self.open_fault = None
         self.opens = []          # (path, mode, encoding, newline) per open() call
 
     def arm(self, faults):
-        self.plan = {int(f["call"]): f for f in (faults or [])}
+        faults = faults or []
+        self.open_fault = next((f["kind"] for f in faults if f["call"] == "open"), None)
+        self.plan = {int(f["call"]): f for f in faults if f["call"] != "open"}
         self.raw_calls = 0
         self.fired = []
         self.short_reads = 0
@@ -132,6 +135,7 @@ class SimDisk:
 
     def disarm(self):
         self.plan = {}
+        self.open_fault = None
 
     def put(self, path, data):
         self.files[path] = bytearray(data)
@@ -147,6 +151,16 @@ class SimDisk:
         reading = "r" in m or "+" in m
         writing = bool(m & {"w", "a", "x", "+"})
         self.opens.append((file, mode, encoding, newline, errors))
+        if getattr(self, "open_fault", None):
+            kind, self.open_fault = self.open_fault, None
+            self.fired.append(("open", kind))
+            if kind == "eacces":
+                raise PermissionError(errno.EACCES, "simulated: permission denied", file)
+            if kind == "eisdir":
+                raise IsADirectoryError(errno.EISDIR, "simulated: is a directory", file)
+            if kind == "emfile":
+                raise OSError(errno.EMFILE, "simulated: too many open files", file)
+            raise FileNotFoundError(errno.ENOENT, "simulated: no such file or directory", file)
         if "r" in m and file not in self.files:
             raise FileNotFoundError(errno.ENOENT, "No such file or directory", file)
         if "x" in m and file in self.files:
